@@ -1465,25 +1465,43 @@ def parse_search(line):
 
 def value_pool(ctx, n):
     """positions for value comparison with the depth chosen so that the Lean reference stays affordable:
-    the engine searches first (fast) and reports its node count per iteration"""
+    the engine searches first (fast), one more iteration at a time, and reports its node count per iteration;
+    a position is searched one ply deeper only while the previous iteration stayed far below the budget, so a
+    dense position never costs more than one short search (an engine search that does not finish within the
+    per-operation timeout is skipped here as too expensive - hangs are C17/C18's subject, not C04's)"""
     pool = small_pool(ctx, int(n * 1.3), max_men=32)
     maxd = 3 if ctx.quick else 4
-    go = run_batch(HDRV, [f"search\t{f}\t{maxd}" for f, _ in pool], timeout_per_op=120.0)
     budget = 9000 if ctx.quick else 60000
+    best = {}                      # fen -> (depth, line)
+    live = [f for f, _ in pool]
+    for d in range(1, maxd + 1):
+        go = run_batch(HDRV, [f"search\t{f}\t{d}" for f in live], timeout_per_op=20.0)
+        nxt = []
+        for f, g in zip(live, go):
+            its = parse_search(g)
+            if its is None:
+                if (g or "").startswith("crash hang"):
+                    ctx.bump("engine_search_timeout_skipped")
+                elif f not in best:
+                    best[f] = (1, g)            # crash: keep, it will be reported
+                continue
+            nodes = int(its[-1].get("nodes", "0")) if its else 0
+            if len(its) < d:
+                continue                        # single legal move / mate: engine stops deepening in `search`? keep previous
+            if nodes <= budget:
+                best[f] = (d, g)
+                if nodes * 12 <= budget:
+                    nxt.append(f)
+            elif f not in best:
+                ctx.bump("skipped_too_expensive")
+        live = nxt
+        if not live:
+            break
     out = []
-    for (f, cnt), g in zip(pool, go):
-        its = parse_search(g)
-        if its is None:
-            out.append((f, 1, cnt, g))      # crash: keep, it will be reported
-            continue
-        d = 0
-        for it in its:
-            if int(it.get("nodes", "0")) <= budget:
-                d = int(it["d"])
-        if d == 0:
-            ctx.bump("skipped_too_expensive")
-            continue
-        out.append((f, d, cnt, g))
+    for f, cnt in pool:
+        if f in best:
+            d, g = best[f]
+            out.append((f, d, cnt, g))
     return out[:n]
 
 
